@@ -21,6 +21,9 @@ pub enum Seg {
     Noise { len: u32, seed: u32 },
     /// `n` compressible contents of a few KiB with hint Detect (the creator reads their head, rewinds)
     Detect { n: u8, seed: u32 },
+    /// one content of `mib` MiB (+ a few bytes), hint Yes: a single compressed cluster larger than
+    /// everything a small queue of ordinary (4 MiB) clusters holds
+    Huge { mib: u8, seed: u32 },
 }
 
 #[derive(Serialize, Deserialize, Clone, Copy, Debug, PartialEq, Eq, Hash)]
@@ -190,6 +193,7 @@ pub fn expand(segs: &[Seg]) -> Vec<(Vec<u8>, Hint)> {
                 }
             }
             Seg::Noise { len, seed } => out.push((content_bytes(*seed, *len as usize, Entropy::High), Hint::Yes)),
+            Seg::Huge { mib, seed } => out.push((content_bytes(*seed, ((*mib as usize) << 20) + 13 + (*seed % 7) as usize, Entropy::Zero), Hint::Yes)),
             Seg::Detect { n, seed } => {
                 for i in 0..*n as u32 {
                     let len = 3000 + (seed.wrapping_add(i * 977) % 6000) as usize;
@@ -212,7 +216,7 @@ impl Property for C08 {
     const ID: &'static str = "C08";
 
     fn rule() -> String {
-        "proptest-generated insertion sequences built from runs of tiny contents (4095 fill a cluster, raw with hint No / compressed with hint Yes) and contents larger than half a cluster (one compressed cluster each), giving 3..60 clusters mixing raw and compressed; each sequence is created 4-6 times with different (perturbation plan, visible CPU count) pairs: plans inject seeded delays inside the public Progress callbacks (main thread at cluster opening, compression workers at handle_cluster, writer thread at handle_cluster_written): none / uniform random {0, yield, 100us, 400us, 2ms} / first compressed cluster slowest / writer slower than all workers / workers finish in reverse order / slow main thread; CPU counts 1..15 through sched_setaffinity (=> 1..14 workers, queue limits 2..28, both shorter and longer than the number of queued clusters). Oracle (metamorphic + model): every run terminates, every address returned resolves to its own bytes in a fresh reader, count and check() are right, the independent decoder finds every cluster inside the file and non-overlapping; addresses are identical across runs. Non-trivial = at least two runs of the case wrote their clusters to the file in different orders (observed through handle_cluster_written); distinct by (sequence shape, number of distinct orders). In half of the cases the first content of every segment / cluster is handed over as a file (InputFile), the others from memory (the writer copies the two kinds through different paths), every second one as a sub-range of its file. Segments of one incompressible content (240..256, 65500..65536 bytes: the stored size of its cluster exceeds the plain size) and of compressible contents with hint Detect are part of the sequences; 12 fixed cases put a lone incompressible cluster at an offset-width boundary between raw clusters.".into()
+        "proptest-generated insertion sequences built from runs of tiny contents (4095 fill a cluster, raw with hint No / compressed with hint Yes) and contents larger than half a cluster (one compressed cluster each), giving 3..60 clusters mixing raw and compressed; each sequence is created 4-6 times with different (perturbation plan, visible CPU count) pairs: plans inject seeded delays inside the public Progress callbacks (main thread at cluster opening, compression workers at handle_cluster, writer thread at handle_cluster_written): none / uniform random {0, yield, 100us, 400us, 2ms} / first compressed cluster slowest / writer slower than all workers / workers finish in reverse order / slow main thread; CPU counts 1..15 through sched_setaffinity (=> 1..14 workers, queue limits 2..28, both shorter and longer than the number of queued clusters). Oracle (metamorphic + model): every run terminates, every address returned resolves to its own bytes in a fresh reader, count and check() are right, the independent decoder finds every cluster inside the file and non-overlapping; addresses are identical across runs. Non-trivial = at least two runs of the case wrote their clusters to the file in different orders (observed through handle_cluster_written); distinct by (sequence shape, number of distinct orders). In half of the cases the first content of every segment / cluster is handed over as a file (InputFile), the others from memory (the writer copies the two kinds through different paths), every second one as a sub-range of its file. Segments of one incompressible content (240..256, 65500..65536 bytes: the stored size of its cluster exceeds the plain size) and of compressible contents with hint Detect are part of the sequences; 12 fixed cases put a lone incompressible cluster at an offset-width boundary between raw clusters; 3 fixed cases hold one content of 9, 17 or 33 MiB (a single cluster larger than the whole queue of a creator with one or two workers), created with 1, 2, 3 and 15 visible cpus.".into()
     }
 
     fn assumptions() -> Vec<String> {
@@ -235,6 +239,16 @@ impl Property for C08 {
     /// raw clusters, under two plans
     fn fixed_cases(_tier: Tier) -> Vec<Case> {
         let mut v = vec![];
+        // one content bigger than the whole queue of a creator with a single worker (2 x 1 x 4 MiB)
+        // and with two workers, created with 1, 2, 3 and 15 visible cpus
+        for (comp, mib) in [(Comp::Lz4(1), 9u8), (Comp::Zstd(1), 17), (Comp::Lz4(1), 33)] {
+            v.push(Case {
+                comp,
+                segs: vec![Seg::Tiny { n: 30, hint: Hint::No, seed: mib as u32 }, Seg::Huge { mib, seed: 3 }, Seg::Tiny { n: 20, hint: Hint::Yes, seed: 9 }],
+                plans: vec![Plan { kind: PlanKind::None, seed: 1, cpus: 1 }, Plan { kind: PlanKind::Uniform, seed: 2, cpus: 2 }, Plan { kind: PlanKind::None, seed: 3, cpus: 3 }, Plan { kind: PlanKind::SlowWriter, seed: 4, cpus: 15 }],
+                file_sources: mib == 17,
+            });
+        }
         for comp in [Comp::Zstd(3), Comp::Lz4(3), Comp::Lzma(1)] {
             for len in [250u32, 255, 65530, 65535] {
                 v.push(Case {
@@ -299,6 +313,7 @@ impl Property for C08 {
                     Seg::Big { n, .. } => *n as usize,
                     Seg::Empties { clusters, .. } => *clusters as usize * 4095,
                     Seg::Noise { .. } => 1,
+                    Seg::Huge { .. } => 1,
                     Seg::Detect { n, .. } => *n as usize,
                 };
             }
@@ -429,6 +444,7 @@ impl Property for C08 {
                 Seg::Big { n, .. } => format!("b{n}"),
                 Seg::Empties { clusters, hint } => format!("e{clusters}{hint:?}"),
                 Seg::Noise { len, .. } => format!("n{}", len / 256),
+                Seg::Huge { mib, .. } => format!("h{mib}"),
                 Seg::Detect { n, .. } => format!("d{n}"),
             })
             .collect();
